@@ -188,9 +188,9 @@ func optsFor(kind, fam string) []string {
 }
 
 type slotNames struct {
-	goName, tag          string
-	in1Go, in1Tag        string
-	in2Go, in2Tag        string
+	goName, tag   string
+	in1Go, in1Tag string
+	in2Go, in2Tag string
 }
 
 var slots = []slotNames{
@@ -353,18 +353,18 @@ func atoms() []*Node { return atomsOf(thoroughAtoms) }
 
 func atomsOf(extended bool) []*Node {
 	a := []*Node{
-		num("7"), nil, num("0"), num("-1"), num("2147483648"), num("1.5"), num("1.0"),
+		num("7"), nil, num("0"), num("-1"), num("2147483648"), num("1.5"), num("1.0"), num("1e3"),
 		str("x"), str(""), str("7"), boolean(true), boolean(false), null(),
-		arr(), arr(str("x"), str("7")), arr(num("7")), arr(null()), arr(str("x"), null()), arr(null(), str("x")),
+		arr(), arr(str("x"), str("7")), arr(num("7")), arr(null()), arr(str("x"), null()), arr(null(), str("x")), arr(num("1.0")),
 		obj(), obj(kv("k", num("7"))), obj(kv("K", num("7")), kv("k2", num("-1"))), obj(kv("k", str("x"))),
 		obj(kv("k", num("1.0"))), obj(kv("k", null())),
 	}
 	if extended {
 		a = append(a,
-			num("1e3"), num("0.1"), num("255"), num("256"), num("9007199254740993"), num("9223372036854775807"),
+			num("0.1"), num("255"), num("256"), num("9007199254740993"), num("9223372036854775807"),
 			num("-2147483649"), num("2.0e0"), num("123456789.125"),
 			str("true"), str("null"), str("1.0"), str("a b#c: d"), str("é\"\\\n\tz"), str(" lead"),
-			arr(arr(str("x"))), arr(num("1.0")), arr(obj(kv("k", num("7")))),
+			arr(arr(str("x"))), arr(obj(kv("k", num("7")))),
 			obj(kv("k", obj(kv("j", num("7"))))), obj(kv("k", arr(num("7")))), obj(kv("k", boolean(true))),
 		)
 	}
@@ -566,9 +566,9 @@ func topLevelDocs(it typeItem) []*Node {
 
 func describeFamily() map[string]any {
 	return map[string]any{
-		"simple_kinds":    simpleKinds,
-		"composite_kinds": compositeKinds,
+		"simple_kinds":        simpleKinds,
+		"composite_kinds":     compositeKinds,
 		"json_name_spellings": l1Tags,
-		"atoms":           fmt.Sprint(len(atoms()) - 1),
+		"atoms":               fmt.Sprint(len(atoms()) - 1),
 	}
 }
